@@ -59,9 +59,10 @@ func c06SpecFile(r *vf.Run, d c06Data) string {
 			spec.SchemaRows = append(spec.SchemaRows, oracle.Row{c: v})
 		}
 	}
-	b, _ := json.Marshal(spec)
-	path := filepath.Join(r.Scratch, "c06-spec-"+vf.Digest(key)+".json")
-	_ = os.WriteFile(path, b, 0o644)
+	path := filepath.Join(r.Scratch, "c06-spec-"+vf.Digest(key)+".gob")
+	if err := writeSpec(path, spec); err != nil {
+		r.Inconclusive("cannot write the classification child's probe specification: " + err.Error())
+	}
 	c06SpecFiles[key] = path
 	return path
 }
@@ -70,13 +71,8 @@ func c06SpecFile(r *vf.Run, d c06Data) string {
 // a damaged file (SIGSEGV/SIGBUS on a truncated mmap, a bbolt page assertion) is attributed to that file.
 // args: path spec-file
 func workerC06Classify(args []string) int {
-	b, err := os.ReadFile(args[1])
-	if err != nil {
-		fmt.Fprintln(os.Stderr, err)
-		return 3
-	}
 	var spec c06Spec
-	if err := json.Unmarshal(b, &spec); err != nil {
+	if err := readSpec(args[1], &spec); err != nil {
 		fmt.Fprintln(os.Stderr, err)
 		return 3
 	}
